@@ -65,8 +65,8 @@ THEOREMS = [
     ]
 ] + (
     # decision tables of the kernels C01 rests on, regenerated from the source on every run (harness/dt_match.py)
-    ["PEval.KernelCell.cell_table_check", "PEval.KernelCell.cell_code_table_eq_model", "PEval.KernelCell.cell_eq_skeleton", "PEval.KernelCell.cell_code_table_eq_cell", "PEval.KernelCell.table_cell_nan_on_radius", "PEval.KernelCell.table_cell_other_frame"]
-    + ["PEval.KernelBetter.better_table_check", "PEval.KernelBetter.better_code_table_eq_model", "PEval.KernelBetter.better_eq_skeleton", "PEval.KernelBetter.better_code_table_eq_isBetterThan", "PEval.KernelBetter.better_code_table_eq_isBetterThan_matcher", "PEval.KernelBetter.table_distance_direction", "PEval.KernelBetter.table_iou_direction", "PEval.KernelBetter.table_equal_not_better", "PEval.KernelBetter.table_none_not_better", "PEval.KernelBetter.table_better_mono"]
+    ["PEval.KernelCell.cell_table_check", "PEval.KernelCell.cell_code_table_eq_model", "PEval.KernelCell.cell_eq_skeleton", "PEval.KernelCell.cell_code_table_eq_cell", "PEval.KernelCell.table_cell_nan_on_radius", "PEval.KernelCell.table_cell_other_frame", "PEval.KernelCell.table_cell_nan_on_radius_iou", "PEval.MatchKernels.valCell_consistent"]
+    + ["PEval.KernelBetter.better_table_check", "PEval.KernelBetter.better_code_table_eq_model", "PEval.KernelBetter.better_eq_skeleton", "PEval.KernelBetter.better_code_table_eq_isBetterThan", "PEval.KernelBetter.better_code_table_eq_isBetterThan_matcher", "PEval.KernelBetter.table_distance_direction", "PEval.KernelBetter.table_iou_direction", "PEval.KernelBetter.table_equal_not_better", "PEval.KernelBetter.table_none_not_better", "PEval.KernelBetter.table_better_mono", "PEval.MatchKernels.valBetter_consistent", "PEval.MatchKernels.forbIoU_consistent"]
     + ["PEval.KernelMatchable.matchable_table_check", "PEval.KernelMatchable.matchable_code_table_eq_model", "PEval.KernelMatchable.matchable_eq_skeleton", "PEval.KernelMatchable.matchable_valuation_consistent", "PEval.KernelMatchable.matchable_code_table_eq_isMatchable", "PEval.KernelMatchable.matchable_code_table_eq_isMatchable_AP", "PEval.KernelMatchable.table_fp_gt_compatible", "PEval.KernelMatchable.table_allow_any", "PEval.KernelMatchable.table_strict_iff"]
 )
 RULE = (
